@@ -22,7 +22,7 @@ func init() {
 		Rule: "byte strings fed to dns.DecodeMessage in a child process with a 3 s watchdog and an address-space limit: grammar-generated messages with every name style (plain, compressed, pointer-only, self pointer, forward pointer, " +
 			"pointer cycle through labels, pointer chains up to 40 deep, truncated label, > 255 octets, 64..191-byte label lengths) in owner names and inside RDATA of every record type, lying section counts, RDLENGTH off by +-k, " +
 			"messages up to 64 KiB, byte mutations, random bytes, and hand-written pointer-loop witnesses; decode results (canonical message text tagged by Go dynamic type) compared with the Lean model; " +
-			"every message that decodes is then served by a local DoH server to the real Resolver.Resolve (no panic, returns). distinct = (generator, name styles used, record types, outcome class).",
+			"stream owned: well-formed messages whose records (of every type) are owned by the names the resolver asks about; every message that decodes is then served by a local DoH server to the real Resolver.Resolve (no panic, returns). distinct = (generator, name styles used, record types, outcome class).",
 		Gen: genC12,
 	})
 }
@@ -147,6 +147,10 @@ func rdataGen(r *rand.Rand, d *gen.DNSBuilder, typ int, adversarial bool) func()
 }
 
 // genDNSMessage builds one raw message; returns bytes and a signature of what it contains.
+// ownedLabels, when set, makes most records of the generated message owned by one of these names
+// (the names the resolver-driven part asks about), so that the resolver really consumes them.
+var ownedLabels [][][]byte
+
 func genDNSMessage(r *rand.Rand, adversarial bool, maxRR int) ([]byte, string) {
 	d := &gen.DNSBuilder{}
 	qd := r.IntN(3)
@@ -176,7 +180,11 @@ func genDNSMessage(r *rand.Rand, adversarial bool, maxRR int) ([]byte, string) {
 			if adversarial && r.IntN(8) == 0 {
 				delta = []int{-3, -1, 1, 2, 40}[r.IntN(5)]
 			}
-			d.RR(r, st, gen.RandLabels(r, 4), typ, 1, r.Uint32(), rdataGen(r, d, typ, adversarial), delta)
+			labels := gen.RandLabels(r, 4)
+			if len(ownedLabels) > 0 && r.IntN(4) != 0 {
+				labels = ownedLabels[r.IntN(len(ownedLabels))]
+			}
+			d.RR(r, st, labels, typ, 1, r.Uint32(), rdataGen(r, d, typ, adversarial), delta)
 		}
 	}
 	sig := fmt.Sprintf("styles%d/types%d", len(styles), len(types))
@@ -209,6 +217,13 @@ func genC12(env *core.Env, emit func(core.Case)) {
 		b2 := append([]byte{}, b...)
 		add("witness", "pointer-chain-600", b2)
 	}
+	// well-formed answers of every record type owned by the very names the resolver asks about
+	ownedLabels = [][][]byte{{[]byte("example"), []byte("com")}, {[]byte("_8443"), []byte("_https"), []byte("example"), []byte("com")}}
+	for i := 0; i < env.Pick(300, 4000); i++ {
+		b, sig := genDNSMessage(r, false, 6)
+		add("owned", sig, b)
+	}
+	ownedLabels = nil
 	n := env.Pick(3000, 120000)
 	for i := 0; i < n; i++ {
 		switch r.IntN(8) {
